@@ -8,16 +8,42 @@ from concurrent.futures import ThreadPoolExecutor
 
 GOROOT_PREFIX = '/opt/veriftools/go'
 
-def first_user_frame(block):
+def frames(block):
     lines = block.split('\n')
+    out = []
     for i in range(len(lines) - 1):
         loc = lines[i + 1].strip()
-        if loc.startswith('/') and ':' in loc:
-            path = loc.split(':')[0]
-            if path.startswith(GOROOT_PREFIX):
-                continue
-            return lines[i].strip(), loc.split(' ')[0]
-    return None, None
+        if loc.startswith('/') and ':' in loc and lines[i].startswith('  ') and not lines[i].startswith('   '):
+            out.append((lines[i].strip(), loc.split(' ')[0]))
+    return out
+
+def first_user_frame(block):
+    """The access belongs to the library ('L') when its innermost non-runtime frame is library code AND the library
+    was entered either by one of its own goroutines or through an exported method / function (an API call made by
+    a harness task). A library function entered directly from harness code through an unexported name is a
+    white-box accessor of the harness (monitors read state that way at quiescent points): harness access."""
+    fr = [(f, l) for f, l in frames(block) if not l.startswith(GOROOT_PREFIX)]
+    if not fr:
+        return None, None
+    f0, l0 = fr[0]
+    if 'zz_vsim_' in l0:
+        return f0, l0
+    # walk outwards to the first harness frame; the frame just inside it is the entry point into the library
+    entry = None
+    for k, (f, l) in enumerate(fr):
+        if 'zz_vsim_' in l:
+            # the wrapper that starts a library goroutine (instrumented `go` statement) is not an accessor
+            if re.search(r'\.(vsimGo\d*|runTask)(\.func\d+)*\(\)$', f):
+                break
+            entry = fr[k - 1][0] if k > 0 else None
+            break
+    if entry is not None:
+        name = entry.split('(')[0].split('.')[-1] if ')' not in entry.split('.')[-1] else entry
+        # method: pkg.(*T).name()  function: pkg.name()
+        m = re.search(r'\.([A-Za-z_][A-Za-z0-9_]*)\(\)$', entry) or re.search(r'\.([A-Za-z_][A-Za-z0-9_]*)(\.func\d+)*\(\)$', entry)
+        if m and not m.group(1)[0].isupper():
+            return f0, l0 + ' [zz_vsim_ accessor ' + entry + ']'
+    return f0, l0
 
 def parse_reports(txt):
     """returns (library_reports, n_harness, n_mixed)"""
@@ -28,6 +54,12 @@ def parse_reports(txt):
         acc = [p for p in parts if re.match(r'(Read|Write|Previous read|Previous write|Atomic|Previous atomic)', p.strip())]
         ff = [first_user_frame(a) for a in acc[:2]]
         kinds = ['H' if (l and 'zz_vsim_' in l) else ('L' if l else '?') for f, l in ff]
+        # object construction: the harness hands Stream / Association pointers from one client task to another
+        # through its own (hidden) memory, so the constructor's initialising writes look unordered with the first
+        # use by another task; a real program publishes the pointer through synchronisation
+        for i, (f, l) in enumerate(ff):
+            if f and re.search(r'\.(createStream|createAssociation\w*|create(Client|Server)\w*|new[A-Z]\w*)\(\)$', f):
+                kinds[i] = 'H'
         if kinds == ['L', 'L']:
             lib.append({'accesses': [f"{f} {l}" for f, l in ff], 'text': r[:6000]})
         elif 'L' in kinds:
